@@ -302,6 +302,40 @@ fn c12_from_raw_parts__empty() {
     obl!("C12.from_raw_parts.empty_buffer_never_reaches_the_decoder", unsafe { !DECODER_REACHED });
 }
 
+// ---- contract (C12): Message::body() --------------------------------------------------------------------------
+// Representation invariant of Message established by from_raw_parts (after fix 1105b634): body_offset <= bytes.len().
+// requires  that invariant; ANY declared body length in the primary header (it is peer-supplied and never checked
+//           against the buffer), any buffer of <= 16 bytes
+// ensures   body() does not panic and yields exactly the bytes from body_offset to the end of the buffer
+// @unit C12.body.slice props=C12 kind=bounded bound=buffer<=16 fn=zbus::message::Message::body timeout=900
+#[cfg(not(verif_skip_c12_body_slice__n16))]
+#[cfg(kani)]
+#[kani::proof]
+#[kani::stub(alloc::fmt::format, stub_format)]
+#[kani::unwind(3)]
+fn c12_body_slice__n16() {
+    static BUF: [u8; 16] = [0x5a; 16];
+    let len: usize = kani::any();
+    kani::assume(len <= 16);
+    let body_offset: usize = kani::any();
+    kani::assume(body_offset <= len);
+    let body_len: u32 = kani::any();
+    let ctx = Context::new_dbus(Endian::Little, 0);
+    let data = serialized::Data::new(&BUF[..len], ctx);
+    let msg = core::mem::ManuallyDrop::new(crate::message::Message {
+        inner: std::sync::Arc::new(crate::message::Inner {
+            primary_header: PrimaryHeader::new(Type::Signal, body_len),
+            quick_fields: std::sync::OnceLock::new(),
+            bytes: data,
+            body_offset,
+            recv_seq: Default::default(),
+        }),
+    });
+    let body = core::mem::ManuallyDrop::new(msg.body());
+    obl!("C12.body.slice.is_the_rest_of_the_buffer", body.data().len() == len - body_offset);
+    kani::cover!(body_offset == len && body_len > 0, "cover.declared_body_longer_than_buffer");
+}
+
 #[cfg(all(kani, test))]
 mod playback {
     use super::*;
